@@ -4,6 +4,10 @@ import cpu_props
 ID = 'C06'
 LEAN_MODULES = ['Py65.Props.C06']
 NAMESPACES = ['Py65.Props.C06']
+# library helpers (CPython behaviour modelled in lean/Py65/Model/*Rt*.lean ...) that the generated code of these
+# modules calls, derived by scanning the Lean sources (harness/rtscan.py); validated against CPython on every run
+import rtcheck  # noqa: E402
+RT_HELPERS = rtcheck.helpers_for(LEAN_MODULES)
 TRUSTED = ['Spec.Cpu / Spec.Cycles (hand-written programming model and documented cycle table, the oracle)', 'translator harness/py2lean.py, validated on every run by exact-state comparison with the real device', 'Py.land/lor/lxor definitions (characterised by theorems, differentially tested)']
 ASSUMPTIONS = ['pairing theorems are stated on the specification (RTI/RTS after IRQ/NMI/BRK/JSR with an arbitrary frame-respecting computation in between, every SP incl. wrap); they transfer to the devices through the entry theorems here and the instruction theorems of C01-C03', 'nesting to arbitrary depth is not proved as a separate induction (each level is an instance of the pairing theorems)', 'reading of "irq() does nothing while I is set": nothing but ending a WAI on the 65C02']
 LEVEL = 'proof'
